@@ -125,20 +125,40 @@ void AbstractParameterAliasable::aliasParameters(const std::string& p1, const st
 
   if (nc)
   {
+    // The parameters p1 follows (directly or through a chain) hand their value
+    // down to p2 as well: they are restricted too.
+    vector<pair<Parameter*, std::shared_ptr<ConstraintInterface>>> restricted;
+    if (both)
+      restricted.push_back(make_pair(param2, nc));
+    restricted.push_back(make_pair(param1, nc));
+    string source = getFrom(getNamespace() + p1);
+    for (size_t i = 0; source != "" && i < getNumberOfParameters(); ++i)
+    {
+      Parameter* ps = &getParameter_(source);
+      std::shared_ptr<ConstraintInterface> c = nc;
+      if (ps->hasConstraint())
+        c.reset(*ps->getConstraint() & *nc);
+      if (!c)
+        throw Exception("AbstractParameterAliasable::aliasParameters. The constraints of " + source + " and " + p2 + " can't be intersected.");
+      restricted.push_back(make_pair(ps, c));
+      source = getFrom(getNamespace() + source);
+    }
+
     // Nothing is changed unless the current values fit the constraint they will get:
-    if (both && !nc->isCorrect(param2->getValue()))
-      throw ConstraintException("AbstractParameterAliasable::aliasParameters", param2, param2->getValue());
-    if (!nc->isCorrect(param1->getValue()))
-      throw ConstraintException("AbstractParameterAliasable::aliasParameters", param1, param1->getValue());
+    for (auto& r : restricted)
+    {
+      if (!r.second->isCorrect(r.first->getValue()))
+        throw ConstraintException("AbstractParameterAliasable::aliasParameters", r.first, r.first->getValue());
+    }
 
     if (both)
-    {
       ApplicationTools::displayWarning("Aliasing parameter " + p2 + " to " + p1 + " with different constraints. They get the intersection of both constraints : " + nc->getDescription());
-      param2->setConstraint(nc);
-    }
     else
       ApplicationTools::displayWarning("Aliasing parameter " + p2 + " to " + p1 + ". " + p1 + " gets the constraints of " + p2 + ": " + nc->getDescription());
-    param1->setConstraint(nc);
+    for (auto& r : restricted)
+    {
+      r.first->setConstraint(r.second);
+    }
   }
 
   // Every thing seems ok, let's create the listener and register it:
